@@ -22,6 +22,11 @@ type wrapper struct {
 	*poolImpl
 }
 
+// Send 把wrapper自己交给任务持有, 直到任务完成 (参考poolImpl.send)
+func (w *wrapper) Send(handler Handler, options ...TaskOption) Task {
+	return w.poolImpl.send(w, handler, options)
+}
+
 func NewPool(options ...PoolOption) Pool {
 	var opts = createPoolOptions(options)
 
